@@ -94,6 +94,13 @@ def check_case(ctx, case):
         return
     model = case['model']
     un = bool(V.use_nugget)
+    if case['method'] == 'lm':
+        # the unbounded search may return non-physical parameters (range <= 0, sill < 0): outside the models'
+        # admissible parameters (C03), "lm where it converges"
+        rs = [v for k, v in descr.items() if k.startswith('effective_range') or k.startswith('sill')]
+        if any(float(v) <= 0 for v in rs):
+            ctx.reject('lm-nonphysical-parameters')
+            return
     ctx.count('model:' + ('sum' if '+' in model else model))
     ctx.count('method:' + case['method'])
     ctx.count('use_nugget:%s' % un)
